@@ -344,7 +344,7 @@ func c12Class(c *c12Case) string {
 		}
 		return "3+"
 	}
-	return fmt.Sprintf("pool=%d conns=%s pre=%s post=%s half=%d never=%d long=%d slow=%d abort=%d phase=%s sig=%s cap=%v", s.Pool, b(len(s.Conns)), b(pre), b(post), half, never, long, slow, abort, s.Phase, s.Signal, s.QueueCap > 0)
+	return fmt.Sprintf("pool=%d conns=%s pre=%s post=%s half=%d never=%d long=%d slow=%d abort=%d quiet=%v phase=%s sig=%s cap=%v", s.Pool, b(len(s.Conns)), b(pre), b(post), half, never, long, slow, abort, s.QuietMs > 0, s.Phase, s.Signal, s.QueueCap > 0)
 }
 
 func c12Gen(tier string, rng *rand.Rand) []c12Case {
@@ -442,6 +442,16 @@ func c12Gen(tier string, rng *rand.Rand) []c12Case {
 		add(c12Scn{Pool: pool, Signal: "EARLY", Conns: []c12ConnScn{{Pre: []int{[]int{300, 50, 0, 300}[pool%4]}}}})
 	}
 	add(c12Scn{Pool: 2, Signal: "EARLY", Conns: []c12ConnScn{{Pre: []int{50, 300, 0}, Pipelined: true}}})
+	// connections quiet for longer than the poller's idle threshold (2 s) when shutdown starts, mixed with fresh ones:
+	// the first poller round closes the quiet ones at once — after it has written the close message to them
+	quiet := func(pool, quietMs, rto int, sig string) c12Scn {
+		return c12Scn{Pool: pool, QuietMs: quietMs, ReadTimeoutMs: rto, Signal: sig, Conns: []c12ConnScn{
+			{}, {Pre: []int{0}}, {Pre: []int{50, 0}, Pipelined: true}, {},
+			{Fresh: true}, {Fresh: true, Pre: []int{50}}, {Fresh: true, Pre: []int{300}, Post: []int{0}, PostDelayMs: 100}}}
+	}
+	add(quiet(0, 2500, 0, "TERM"))
+	add(quiet(4, 3500, 60000, "DIRECT"))
+	add(quiet(1, 3000, 0, "INT"))
 	add(crowd(0, 21, 3, "TERM"))
 	add(crowd(0, 10, 2, "DIRECT"))
 	add(crowd(8, 14, 4, "INT"))
@@ -464,6 +474,12 @@ func c12Gen(tier string, rng *rand.Rand) []c12Case {
 			s.SmallBuf = true
 			s.Conns = []c12ConnScn{{Pre: []int{durs[rng.Intn(len(durs))]}, Bulk: 4 << 20, ReadDelayMs: []int{300, 1200}[rng.Intn(2)]}}
 			add(s)
+			continue
+		}
+		if rng.Intn(12) == 0 {
+			q := quiet(rng.Intn(5), 2500+100*rng.Intn(11), []int{0, 0, 10000, 60000}[rng.Intn(4)], s.Signal)
+			q.Late = s.Late
+			add(q)
 			continue
 		}
 		if rng.Intn(12) == 0 {
